@@ -16,3 +16,8 @@
 #define _ZNK11QDomElement7tagNameEv qtdom_tagName
 #define _ZNK8QDomNode12namespaceURIEv qtdom_namespaceURI
 #define _ZNK11QDomElement4textEv qtdom_text
+/* detach()/data() of a model block calls reallocData(size + 1): the shared models derive the new block's loop-bound hint from the
+   (symbolic) requested size, which makes every later loop over that string run to the model loop bound.  C16 keeps the old constant hint
+   and asserts (model limit) that the request fits it. */
+#define _ZN10QByteArray11reallocDataEj6QFlagsIN10QArrayData16AllocationOptionEE qtcore_QByteArray_reallocData
+#define _ZN7QString11reallocDataEjb qtcore_QString_reallocData
